@@ -302,6 +302,21 @@ type ProgCase struct {
 	Backend string // "vm" | "tree"
 	Form    string // "let" (annotated let, no scalar conversion) | "as" (explicit cast)
 	Route   string // "host" (any_val(0)) | "json" ("<text>".parse_json()) | "member" (h~>zk) | "member-opt" (h->zk, T = ?U)
+	// Keep (member routes): the any-object that holds the dynamic value is printed after the crossing: a crossing,
+	// refused or admitted, leaves the value it looked at as it was.
+	Keep bool `json:",omitempty"`
+}
+
+func (c ProgCase) holder() *hs.ObjV {
+	h := hs.NewObj(true)
+	if c.Route == "member-opt" {
+		if o := c.V.V.(hs.OptV); o.Inner != nil {
+			h.Set("zk", o.Inner)
+		}
+	} else {
+		h.Set("zk", c.V.V)
+	}
+	return h
 }
 
 func (c ProgCase) program() px.ProgCase {
@@ -315,21 +330,18 @@ func (c ProgCase) program() px.ProgCase {
 	case "member", "member-opt":
 		// the value is a member of an any-object: `h~>zk` has type any, `h->zk` has type ?any
 		b.WriteString("import any_val from host;\n")
-		h := hs.NewObj(true)
 		src = "holder~>zk"
 		if c.Route == "member-opt" {
 			src = "holder->zk"
-			if o := c.V.V.(hs.OptV); o.Inner != nil {
-				h.Set("zk", o.Inner)
-			}
-		} else {
-			h.Set("zk", c.V.V)
 		}
-		pc.AnyVals = []hs.WV{{V: h}}
+		pc.AnyVals = []hs.WV{{V: c.holder()}}
 		pre = "    let holder: { ? } = any_val(0);\n"
 	default:
 		b.WriteString("import any_val from host;\n")
 		pc.AnyVals = []hs.WV{c.V}
+	}
+	if c.Keep {
+		pre += "    println(holder);\n    println(\"START\");\n"
 	}
 	b.WriteString("fn main() {\n" + pre + "    try {\n")
 	if c.Form == "as" {
@@ -343,7 +355,11 @@ func (c ProgCase) program() px.ProgCase {
 	for _, l := range g.lines {
 		b.WriteString(l + "\n")
 	}
-	b.WriteString("        println(\"FINISHED\");\n    } catch e {\n        println(\"REFUSED\");\n        println(e.message);\n    }\n    println(\"AFTER\");\n}\n")
+	b.WriteString("        println(\"FINISHED\");\n    } catch e {\n        println(\"REFUSED\");\n        println(e.message);\n    }\n    println(\"AFTER\");\n")
+	if c.Keep {
+		b.WriteString("    println(\"SOURCE\");\n    println(holder);\n")
+	}
+	b.WriteString("}\n")
 	pc.Modules = map[string]string{"main": b.String()}
 	return pc
 }
@@ -390,6 +406,22 @@ func checkProg(c ProgCase) *pk.Failure {
 	ocText := oc.Class
 	if oc.Kind != "" {
 		ocText += "/" + oc.Kind
+	}
+	before := ""
+	if i := strings.Index(out, "START\n"); c.Keep && i >= 0 {
+		before, out = out[:i], out[i+len("START\n"):]
+	}
+	if i := strings.Index(out, "AFTER\nSOURCE\n"); c.Keep && i >= 0 {
+		tail := out[i+len("AFTER\nSOURCE\n"):]
+		out = out[:i+len("AFTER\n")]
+		verdict := "admitted"
+		if strings.HasPrefix(out, "REFUSED\n") {
+			verdict = "refused"
+		}
+		pk.Extra("source-values-compared", 1)
+		if want := before; tail != want {
+			return pk.Failf(sub, c.Backend+":source-changed-by-"+verdict+"-crossing", "%s\n  after the %s crossing the dynamic value prints\n  %q, it was\n  %q", head(), verdict, tail, want)
+		}
 	}
 	switch {
 	case strings.HasPrefix(out, "ADMITTED\n"):
@@ -698,6 +730,7 @@ func TestProg(t *testing.T) {
 		route := []string{"host", "host", "json", "member"}[rapid.IntRange(0, 3).Draw(rt, "route")]
 		p := drawPair(rapidCh{rt}, pairOpts{depth: depth, tame: true, json: route == "json"})
 		form := []string{"let", "as"}[rapid.IntRange(0, 1).Draw(rt, "form")]
+		keep := rapid.IntRange(0, 2).Draw(rt, "keep") > 0 && route == "member"
 		if route == "json" && !jsonRepresentable(p.V.V) {
 			pk.Eval()
 			pk.Discard("not-a-json-document")
@@ -713,8 +746,11 @@ func TestProg(t *testing.T) {
 				pk.Gate("builtin-null-result")
 				continue
 			}
-			c := ProgCase{Pair: p, Backend: b, Form: form, Route: route}
+			c := ProgCase{Pair: p, Backend: b, Form: form, Route: route, Keep: keep}
 			classify(p, judge(p.V.V, p.T, mode{Explicit: form == "as"}), "prog:"+b+":"+form+":"+route)
+			if keep {
+				pk.Class("prog:source-kept")
+			}
 			pk.Judge(rt, c, checkProg(c))
 		}
 	})
